@@ -526,6 +526,8 @@ impl<W: Write> Runner<W> {
                             "new_local_client" => {
                                 let c = w.server.new_local_client(conn);
                                 w.clients.insert(conn, c);
+                                // a new client object: its clock starts again
+                                w.tclock.insert((conn, 'C'), 0);
                             }
                             "disconnect_local_client" => {
                                 if let Some(mut c) = w.clients.remove(&conn) {
@@ -562,7 +564,13 @@ impl<W: Write> Runner<W> {
                     }
                 });
                 let st1 = w.proj(conn, side);
-                self.emit(json!({"ev":"api","conn":conn,"side":side.to_string(),"call":call,"st0":st0,"st1":st1,"panic":r.is_err()}));
+                // the local-client calls of the server act on the client object too: log its projection after the call
+                let cst1 = if side == 'S' && call.ends_with("local_client") && w.clients.contains_key(&conn) { w.proj(conn, 'C') } else { Value::Null };
+                if cst1.is_null() {
+                    self.emit(json!({"ev":"api","conn":conn,"side":side.to_string(),"call":call,"st0":st0,"st1":st1,"panic":r.is_err()}));
+                } else {
+                    self.emit(json!({"ev":"api","conn":conn,"side":side.to_string(),"call":call,"st0":st0,"st1":st1,"cst1":cst1,"panic":r.is_err()}));
+                }
                 if r.is_err() {
                     self.panics += 1;
                     w.dead = true;
